@@ -5,6 +5,8 @@ cd "$(dirname "$0")"
 mkdir -p .build evidence
 export CARGO_NET_OFFLINE=true CARGO_TARGET_DIR="$PWD/.build/cargo" RUSTFLAGS="--cfg xray_verif"
 python3 lib/extract.py >/dev/null
+# a stale or truncated dependency file would let make compile files before their dependencies: always regenerate it
+rm -f coq/.Makefile.d coq/Makefile coq/Makefile.conf
 ( cd coq && coq_makefile -f _CoqProject -o Makefile >/dev/null && timeout 3000 make -j16 >../.build/coq_build.log 2>&1 ) || { tail -40 .build/coq_build.log; exit 1; }
 cp /repo/Cargo.lock harness/Cargo.lock
 ( cd harness && cargo build --offline >../.build/cargo_build.log 2>&1 ) || { tail -40 .build/cargo_build.log; exit 1; }
